@@ -643,7 +643,7 @@ func replayOnRealCode(e *Engine, o *Obligation) map[string]interface{} {
 		rec["reason"] = "obligation is not attached to a function contract (table / frame obligation)"
 		return rec
 	}
-	if strings.Contains(o.name, "/safety.") && ct.pkg == "render" && (strings.Contains(ct.fnName, "STL") || ct.fnName == "parseFloats") {
+	if (strings.Contains(o.name, "/safety.") || strings.Contains(o.name, "/call.")) && ct.pkg == "render" && (strings.Contains(ct.fnName, "STL") || ct.fnName == "parseFloats") {
 		return stlLoaderReplay(e, o)
 	}
 	if !strings.Contains(o.name, "/post.") {
@@ -773,21 +773,27 @@ func replayOnRealCode(e *Engine, o *Obligation) map[string]interface{} {
 	case fn == nil:
 	case nres == 0:
 		fmt.Fprintf(&body, "\t%s\n", call)
+	case nres == 1 && o.resultDyn != nil && usesResultFields(ct):
+		fmt.Fprintf(&body, "\tr, _ := (%s).(%s)\n\t_ = r\n", call, g.typeStr(o.resultDyn))
 	case nres == 1:
 		fmt.Fprintf(&body, "\tr := %s\n\t_ = r\n", call)
 	default:
 		var rs []string
 		for i := 0; i < nres; i++ {
-			rs = append(rs, fmt.Sprintf("r%d", i))
+			rs = append(rs, fmt.Sprintf("verifRes%d", i))
 		}
 		fmt.Fprintf(&body, "\t%s := %s\n", strings.Join(rs, ", "), call)
 		for _, r := range rs {
 			fmt.Fprintf(&body, "\t_ = %s\n", r)
 		}
-		fmt.Fprintf(&body, "\tr := r0\n\t_ = r\n\terr := %s\n\t_ = err\n", rs[nres-1])
+		if o.resultDyn != nil && usesResultFields(ct) {
+			fmt.Fprintf(&body, "\tr, _ := verifRes0.(%s)\n\t_ = r\n\terr := %s\n\t_ = err\n", g.typeStr(o.resultDyn), rs[nres-1])
+		} else {
+			fmt.Fprintf(&body, "\tr := verifRes0\n\t_ = r\n\terr := %s\n\t_ = err\n", rs[nres-1])
+		}
 		for i := 0; i < nres; i++ {
 			if n := fn.Signature.Results().At(i).Name(); n != "" && n != "_" && n != "err" && n != "r" {
-				fmt.Fprintf(&body, "\t%s := r%d\n\t_ = %s\n", n, i, n)
+				fmt.Fprintf(&body, "\t%s := verifRes%d\n\t_ = %s\n", n, i, n)
 			}
 		}
 	}
@@ -946,6 +952,90 @@ func stlLoaderReplay(e *Engine, o *Obligation) map[string]interface{} {
 			count = int(f)
 		}
 	}
+	if strings.Contains(o.name, "loadSTLBinary.guard") {
+		size := -1
+		// prefer a model describing a small but possible file (it must at least hold the header)
+		full := append(append([]*Term{}, o.assume...), mkNot(o.goal))
+		vs, _, _ := collect(full)
+		var extra []*Term
+		for _, v := range vs {
+			if strings.Contains(v.name, "Size") && v.sort == SInt {
+				extra = append(extra, mkLe(mkInt(84), v), mkLe(v, mkInt(4096)))
+			}
+		}
+		model := o.res.model
+		if r2 := solveQuery(append(full, extra...), []string{"small-file model for replay"}, "", 20*time.Second, false); r2.status == "sat" {
+			model = r2.model
+		}
+		for k, v := range model {
+			f, ok := smtValueToFloat(v)
+			if !ok {
+				continue
+			}
+			if strings.HasSuffix(k, "binary.Read.1") {
+				count = int(f)
+			}
+			if strings.Contains(k, "Size") {
+				size = int(f)
+			}
+		}
+		rec["model_file_size"] = size
+		rec["model_header_count"] = count
+		rec["model_used"] = model
+		if size < 84 || size > 1<<20 || count < 0 {
+			rec["reason"] = "model file size / count not usable for a replay file"
+			return rec
+		}
+		src := fmt.Sprintf(`package render
+
+import (
+	"encoding/binary"
+	"fmt"
+	"os"
+	"path/filepath"
+	"runtime"
+	"testing"
+)
+
+func TestVerifReplay(t *testing.T) {
+	path := filepath.Join(t.TempDir(), "model.stl")
+	buf := make([]byte, %d)
+	binary.LittleEndian.PutUint32(buf[80:], uint32(%d))
+	os.WriteFile(path, buf, 0o644)
+	var m0, m1 runtime.MemStats
+	runtime.GC()
+	runtime.ReadMemStats(&m0)
+	func() {
+		defer func() {
+			if r := recover(); r != nil {
+				fmt.Printf("REPLAY-PANIC %%v\n", r)
+			}
+		}()
+		m, err := LoadSTL(path)
+		fmt.Printf("REPLAY-RETURNED %%d triangles, err=%%v\n", len(m), err)
+	}()
+	runtime.ReadMemStats(&m1)
+	alloc := m1.TotalAlloc - m0.TotalAlloc
+	fmt.Printf("REPLAY-ALLOC %%d bytes for a %%d byte file\n", alloc, len(buf))
+	if alloc > 64*uint64(len(buf))+(1<<20) {
+		fmt.Printf("REPLAY-DISPROPORTIONATE\n")
+	}
+}
+`, size, count)
+		rec["test_source"] = src
+		out, cmdline := runOverlayTest(e, "render", src, "^TestVerifReplay$", false)
+		rec["command"] = cmdline
+		if len(out) > 2000 {
+			out = out[:2000]
+		}
+		rec["output"] = out
+		if strings.Contains(out, "REPLAY-PANIC") || strings.Contains(out, "REPLAY-DISPROPORTIONATE") || strings.Contains(out, "out of memory") {
+			rec["reproduced"] = true
+		} else {
+			rec["reason"] = "LoadSTL stayed within proportion on the file built from the model"
+		}
+		return rec
+	}
 	if nverts < 0 {
 		nverts = 1
 	}
@@ -1004,4 +1094,49 @@ func TestVerifReplay(t *testing.T) {
 		rec["reason"] = "LoadSTL returned normally on the file built from the model"
 	}
 	return rec
+}
+
+// usesResultFields: does the contract select struct fields of the result
+// (r.field rather than r.Method(...))? Then the replay asserts the dynamic type.
+func usesResultFields(ct *Contract) bool {
+	found := false
+	var walk func(e Expr, callee bool)
+	walk = func(e Expr, callee bool) {
+		switch n := e.(type) {
+		case *ESel:
+			if id, ok := n.x.(*EIdent); ok && (id.name == "r" || id.name == "result") && !callee {
+				found = true
+			}
+			walk(n.x, false)
+		case *ECall:
+			walk(n.fun, true)
+			for _, a := range n.args {
+				walk(a, false)
+			}
+		case *EBin:
+			walk(n.l, false)
+			walk(n.r, false)
+		case *EUn:
+			walk(n.x, false)
+		case *EIndex:
+			walk(n.x, false)
+			walk(n.i, false)
+		case *EComp:
+			for _, a := range n.elems {
+				walk(a, false)
+			}
+		}
+	}
+	for _, cl := range ct.ensures {
+		walk(cl.expr, false)
+	}
+	for _, s := range ct.script {
+		if s.clause != nil {
+			walk(s.clause.expr, false)
+		}
+		if s.let.expr != nil {
+			walk(s.let.expr, false)
+		}
+	}
+	return found
 }
